@@ -458,6 +458,7 @@ func (w *W) c05Deep(st *c05State, th bool) {
 					}
 				}
 				w.Count("deep_cases", 1)
+				w.Checkpoint() // the next case may end this process
 				w.Max("max_depth_survived", int64(d))
 				w.Nontrivial(gen.Hash64([]byte(cs.Gen), []byte(api)))
 			}
